@@ -19,7 +19,7 @@ CLASSES = {
   ('T02-ternary-sentinel', r'^parse_calc\.ternary\.sentinel$', "constant `c ? a : b` uses the value 0x7eaddead as an in-band 'condition was false' marker: `1 ? 2125323949 : x` yields x"),
  ],
  'C17': [
-  ('P01-shift16-rmw', r'(w_shrass|expr/shass/|expr/sh/|rw/cass)', "16-bit shift-assignment (x >>= k, x <<= k) on a variable in split-port RAM is emitted as LSR/ROR/ASL/ROL directly on memory: read-modify-write cycle on the read port"),
+  ('P01-shift16-rmw', r'(w_shrass|expr/shass/|expr/sh/|rw/cass|modes/shift/warr)', "16-bit shift-assignment (x >>= k, x <<= k) on a variable in split-port RAM is emitted as LSR/ROR/ASL/ROL directly on memory: read-modify-write cycle on the read port"),
  ],
  'C15': [
   ('R01-shift16', r'^rw/cass/(ha|wa|w2)(<<|>>)=', "16-bit x <<= k / x >>= k and x = x << k give different results (the expression form computes the high byte from the low byte; see C01 K03)"),
